@@ -285,7 +285,7 @@ func runJob(self string, c harness.Cfg) *explore.Result {
 		raceLog = f.Name()
 		f.Close()
 		os.Remove(raceLog)
-		cmd.Env = append(cmd.Env, "GORACE=log_path="+raceLog)
+		cmd.Env = append(cmd.Env, "GORACE=exitcode=0 log_path="+raceLog)
 		defer func() {
 			ms, _ := filepath.Glob(raceLog + ".*")
 			for _, m := range ms {
